@@ -71,6 +71,96 @@ def _nifty_quiet():
         pass
 
 
+# --------------------------------------------------------------------------------------------------
+# round 6: responses with a real scalar gain (R = g*A in several spellings) and heteroscedastic noise
+# given as a DiagonalOperator that is used through `.inverse` (lazily inverted diagonal).  The exact
+# model only sees the dense matrix g*A and diag N.  (helpers live here, lg_common.py is shared)
+# --------------------------------------------------------------------------------------------------
+
+GAINS = [Fr(3), Fr(2), Fr(-2), Fr(1, 2), Fr(4), Fr(-3), Fr(3, 2), Fr(1, 4)]
+SPELLINGS = ["scaling_left", "scaling_right", "mul", "scale", "scaling_both"]
+NMODES = ["diag_inverse", "makeop_ninv"]
+GAIN_RKINDS = ["full", "dup_row", "dup_col", "full", "rank1", "zero_row"]
+GAIN_ROUTES = ["re.wf.signal", "re.wf.data"]
+VARS = [Fr(1, 4), Fr(1), Fr(4), Fr(1, 16), Fr(16)]
+
+
+def gen_gain_case(rng, idx, k=None):
+    """R = g*A with a real scalar gain g != +-1 absorbed by ChainOperator into neighbouring diagonal
+    operators; noise = DiagonalOperator of distinct variances, inverse taken lazily by the code."""
+    k = int(rng.integers(1000)) if k is None else k
+    case = L.gen_lg_case(rng, idx, rkind=GAIN_RKINDS[k % len(GAIN_RKINDS)], noise="diag")
+    m = case["m"]
+    A = case["R"]
+    if not any(any(x != 0 for x in r) for r in A):
+        A[0][0] = 1
+        case["rank"] = 1
+    g = GAINS[k % len(GAINS)]
+    # heteroscedastic: variances sigma^2 from VARS, not all equal when m > 1
+    sig2 = [VARS[int(rng.integers(len(VARS)))] for _ in range(m)]
+    if m > 1 and len(set(sig2)) == 1:
+        sig2[0] = VARS[(VARS.index(sig2[0]) + 1) % len(VARS)]
+    sq = {Fr(1, 4): Fr(1, 2), Fr(1): Fr(1), Fr(4): Fr(2), Fr(1, 16): Fr(1, 4), Fr(16): Fr(4)}
+    case["W"] = [[str(1 / sq[sig2[i]]) if i == j else "0" for j in range(m)] for i in range(m)]
+    case["Wi"] = [[str(sq[sig2[i]]) if i == j else "0" for j in range(m)] for i in range(m)]
+    case["A"] = [[int(x) for x in r] for r in A]
+    case["R"] = [[str(g * x) for x in r] for r in A]
+    case["Q"] = [[0] * case["n"] for _ in range(m)]
+    case["gain"] = str(g)
+    case["spelling"] = SPELLINGS[k % len(SPELLINGS)]
+    case["nmode"] = NMODES[(k // 2) % len(NMODES)]
+    case["rkind"] = "gain_" + case["rkind"]
+    return case
+
+
+def classic_ops_gain(lg):
+    import nifty.cl as ift
+    case = lg.case
+    g = float(Fr(case["gain"]))
+    dom = ift.UnstructuredDomain(lg.n)
+    tgt = ift.UnstructuredDomain(lg.m)
+    Aop = L.dense_op(dom, tgt, np.array(case["A"], dtype=np.float64))
+    sp = case["spelling"]
+    if sp == "scaling_left":
+        Rop = ift.ScalingOperator(tgt, g) @ Aop
+    elif sp == "scaling_right":
+        Rop = Aop @ ift.ScalingOperator(dom, g)
+    elif sp == "mul":
+        Rop = g * Aop
+    elif sp == "scale":
+        Rop = Aop.scale(g)
+    elif sp == "scaling_both":      # g = (g/2) * 2, one factor on either side of the matrix part
+        Rop = ift.ScalingOperator(tgt, g / 2.) @ Aop @ ift.ScalingOperator(dom, 2.)
+    else:
+        raise ValueError(sp)
+    var = np.diag(lg.f("N")).copy()
+    if case["nmode"] == "diag_inverse":
+        Nop = ift.DiagonalOperator(ift.makeField(tgt, var), sampling_dtype=np.float64)
+        Ninv = Nop.inverse
+    else:                           # the user holds N^-1 = makeOp(1/var); the covariance is its lazy inverse
+        Ninv = ift.makeOp(ift.makeField(tgt, 1. / var), sampling_dtype=np.float64)
+        Nop = Ninv.inverse
+    d = ift.makeField(tgt, lg.f("d"))
+    return {"dom": dom, "tgt": tgt, "R": Rop, "W": None, "Ninv": Ninv, "N": Nop, "d": d, "signal": Rop}
+
+
+def _jax_lh(lg, nonlinear=False):
+    case = lg.case
+    if not case.get("gain"):
+        return L.jax_likelihood(lg, nonlinear)
+    import jax.numpy as jnp
+    import nifty.re as jft
+    g = float(Fr(case["gain"]))
+    A = jnp.asarray(np.array(case["A"], dtype=np.float64))
+    var = jnp.asarray(np.diag(lg.f("N")).copy())
+    left = case["spelling"] in ("scaling_left", "mul", "scale")
+
+    def fwd(x):
+        return g * (A @ x) if left else A @ (g * x)
+    lh = jft.Gaussian(jnp.asarray(lg.f("d")), noise_cov_inv=lambda x: x / var, noise_std_inv=lambda x: x / jnp.sqrt(var))
+    return lh.amend(fwd, domain=jft.ShapeWithDtype((lg.n,), jnp.float64))
+
+
 def run_route(lg, route, seed=0):
     """Run one route of the implementation on one case; returns a numpy array (vector or matrix T
     given by rows n x k)."""
@@ -85,21 +175,21 @@ def run_route(lg, route, seed=0):
         if route == "re.wf.absdelta":
             # the accuracy is requested through `absdelta` alone (documented to take precedence over the
             # default relative-residual tolerance); ill-conditioned models make the difference visible
-            lh = L.jax_likelihood(lg, False)
+            lh = _jax_lh(lg, False)
             s, _ = jft.wiener_filter_posterior(
                 lh, key=key, n_samples=0, jit=False,
                 draw_linear_kwargs=dict(cg_name=None, cg_kwargs=dict(absdelta=1e-13, maxiter=100)))
             return np.asarray(s.pos)
         if route.startswith("re.wf.") and route != "re.wf.samples":
             nl = ".lin." in route
-            lh = L.jax_likelihood(lg, nl)
+            lh = _jax_lh(lg, nl)
             pos = jnp.asarray(lg.f("p")) if nl else None
             sig = route.endswith("signal")
             s, _ = jft.wiener_filter_posterior(
                 lh, pos, key=key, n_samples=0, draw_linear_kwargs=kw, signal_space=sig, jit=False,
                 model_is_linear=not nl, noise_covariance=None if sig else (lambda x: N @ x))
             return np.asarray(s.pos)
-        lh = L.jax_likelihood(lg, False)
+        lh = _jax_lh(lg, False)
         if route == "re.T":
             from nifty.re import evi
             mean = jnp.asarray(lg.np_mean())
@@ -165,7 +255,7 @@ def run_route(lg, route, seed=0):
             return np.asarray(samples.pos)
         raise ValueError(route)
     import nifty.cl as ift
-    o = L.classic_ops(lg)
+    o = classic_ops_gain(lg) if case.get("gain") else L.classic_ops(lg)
     ic_s = ift.AbsDeltaEnergyController(1e-15, iteration_limit=400, convergence_level=3)
     ic_n = ift.GradientNormController(tol_abs_gradnorm=1e-12, iteration_limit=30)
     lhc = ift.GaussianEnergy(o["d"], o["Ninv"]) @ o["R"]
@@ -398,6 +488,9 @@ class C20(C.Check):
             cases.append(L.gen_illcond_cg_case(rng, 800 + i))
         for i in range(2 if ctx.quick else 8):       # identity response / operator simplification paths
             cases.append(L.gen_identity_case(rng, 900 + i))
+        rng6 = ctx.rng(2006)                          # own stream: the cases above stay what they were
+        for i in range(10 if ctx.quick else 60):     # round 6: scalar gain in R, lazily inverted diagonal noise
+            cases.append(gen_gain_case(rng6, 600 + i, k=i))
         return cases, nokl
 
     def correspondence(self, ctx, res):
@@ -414,6 +507,8 @@ class C20(C.Check):
                 routes = ["re.wf.absdelta", "re.wf.signal", "re.wf.data"]
             if case["rkind"] == "illcond_cg":
                 routes = ["cl.wfc.inverse", "re.wf.signal"]
+            if case.get("gain"):
+                routes = CL_ROUTES + GAIN_ROUTES
             # the expensive driver routes on a subset that always contains rank-deficient cases
             if case["rkind"] not in ("illcond", "illcond_cg") and (ci < len(corpus) or (ci - len(corpus)) < nokl):
                 routes = routes + JAX_OKL
@@ -482,9 +577,9 @@ class C20(C.Check):
             rng = ctx.rng(2020)
             routes = [h[1] for h in hints] or (JAX_CHEAP + CL_ROUTES)
             for i in range(40 * budget):
-                case = L.gen_lg_case(rng, 1000 + i, cplx=(i % 2 == 1))
+                case = gen_gain_case(rng, 1000 + i) if i % 4 == 2 else L.gen_lg_case(rng, 1000 + i, cplx=(i % 2 == 1))
                 lg = L.LG(case)
-                for route in sorted(set(routes)):
+                for route in sorted(set(routes) & set(CL_ROUTES + GAIN_ROUTES) if case.get("gain") else set(routes)):
                     out = safe_route(lg, route, seed=ctx.seed)
                     n += 1
                     f = direct_failure(lg, route, out)
